@@ -408,6 +408,9 @@ func (p *schemaValidatorsPool) RedeemValidator(s *SchemaValidator) {
 	}
 	p.debugMap[s] = statusRedeemed
 	p.redeemMap[s] = caller()
+	if verifRedeemed("schemaValidatorsPool", s) {
+		return
+	}
 	p.Put(s)
 }
 
@@ -442,6 +445,9 @@ func (p *objectValidatorsPool) RedeemValidator(s *objectValidator) {
 	}
 	p.debugMap[s] = statusRedeemed
 	p.redeemMap[s] = caller()
+	if verifRedeemed("objectValidatorsPool", s) {
+		return
+	}
 	p.Put(s)
 }
 
@@ -476,6 +482,9 @@ func (p *sliceValidatorsPool) RedeemValidator(s *schemaSliceValidator) {
 	}
 	p.debugMap[s] = statusRedeemed
 	p.redeemMap[s] = caller()
+	if verifRedeemed("sliceValidatorsPool", s) {
+		return
+	}
 	p.Put(s)
 }
 
@@ -510,6 +519,9 @@ func (p *itemsValidatorsPool) RedeemValidator(s *itemsValidator) {
 	}
 	p.debugMap[s] = statusRedeemed
 	p.redeemMap[s] = caller()
+	if verifRedeemed("itemsValidatorsPool", s) {
+		return
+	}
 	p.Put(s)
 }
 
@@ -544,6 +556,9 @@ func (p *basicCommonValidatorsPool) RedeemValidator(s *basicCommonValidator) {
 	}
 	p.debugMap[s] = statusRedeemed
 	p.redeemMap[s] = caller()
+	if verifRedeemed("basicCommonValidatorsPool", s) {
+		return
+	}
 	p.Put(s)
 }
 
@@ -578,6 +593,9 @@ func (p *headerValidatorsPool) RedeemValidator(s *HeaderValidator) {
 	}
 	p.debugMap[s] = statusRedeemed
 	p.redeemMap[s] = caller()
+	if verifRedeemed("headerValidatorsPool", s) {
+		return
+	}
 	p.Put(s)
 }
 
@@ -612,6 +630,9 @@ func (p *paramValidatorsPool) RedeemValidator(s *ParamValidator) {
 	}
 	p.debugMap[s] = statusRedeemed
 	p.redeemMap[s] = caller()
+	if verifRedeemed("paramValidatorsPool", s) {
+		return
+	}
 	p.Put(s)
 }
 
@@ -646,6 +667,9 @@ func (p *basicSliceValidatorsPool) RedeemValidator(s *basicSliceValidator) {
 	}
 	p.debugMap[s] = statusRedeemed
 	p.redeemMap[s] = caller()
+	if verifRedeemed("basicSliceValidatorsPool", s) {
+		return
+	}
 	p.Put(s)
 }
 
@@ -680,6 +704,9 @@ func (p *numberValidatorsPool) RedeemValidator(s *numberValidator) {
 	}
 	p.debugMap[s] = statusRedeemed
 	p.redeemMap[s] = caller()
+	if verifRedeemed("numberValidatorsPool", s) {
+		return
+	}
 	p.Put(s)
 }
 
@@ -714,6 +741,9 @@ func (p *stringValidatorsPool) RedeemValidator(s *stringValidator) {
 	}
 	p.debugMap[s] = statusRedeemed
 	p.redeemMap[s] = caller()
+	if verifRedeemed("stringValidatorsPool", s) {
+		return
+	}
 	p.Put(s)
 }
 
@@ -748,6 +778,9 @@ func (p *schemaPropsValidatorsPool) RedeemValidator(s *schemaPropsValidator) {
 	}
 	p.debugMap[s] = statusRedeemed
 	p.redeemMap[s] = caller()
+	if verifRedeemed("schemaPropsValidatorsPool", s) {
+		return
+	}
 	p.Put(s)
 }
 
@@ -782,6 +815,9 @@ func (p *formatValidatorsPool) RedeemValidator(s *formatValidator) {
 	}
 	p.debugMap[s] = statusRedeemed
 	p.redeemMap[s] = caller()
+	if verifRedeemed("formatValidatorsPool", s) {
+		return
+	}
 	p.Put(s)
 }
 
@@ -816,6 +852,9 @@ func (p *typeValidatorsPool) RedeemValidator(s *typeValidator) {
 	}
 	p.debugMap[s] = statusRedeemed
 	p.redeemMap[s] = caller()
+	if verifRedeemed("typeValidatorsPool", s) {
+		return
+	}
 	p.Put(s)
 }
 
@@ -850,6 +889,9 @@ func (p *schemasPool) RedeemSchema(s *spec.Schema) {
 	}
 	p.debugMap[s] = statusRedeemed
 	p.redeemMap[s] = caller()
+	if verifRedeemed("schemasPool", s) {
+		return
+	}
 	p.Put(s)
 }
 
@@ -890,6 +932,9 @@ func (p *resultsPool) RedeemResult(s *Result) {
 	}
 	p.debugMap[s] = statusRedeemed
 	p.redeemMap[s] = caller()
+	if verifRedeemed("resultsPool", s) {
+		return
+	}
 	p.Put(s)
 }
 
